@@ -401,7 +401,7 @@ String String::fromBase64(const String& data)
         return String();
     result.reserve(data.length());
     char* out = (char*)result;
-    const char* in = (const char*)data;
+    const char* in = data.data->str; // not (const char*)data: the conversion reads the byte behind an attached string, and copies the text when that byte is not NUL
     usize i;
     usize j;
     unsigned char c;
